@@ -6,11 +6,13 @@
 //	tmnamecff.name  bytes=<hex>          -> ok:<plat:tag:id=hex(utf8)>,… (sorted) | err | panic
 //	tmnamecff.utf16 bytes=<hex>          -> ok:<hex(utf8)> | panic
 //	tmnamecff.index bytes=<hex> pos=<n>  -> ok:<end>;<count>;<items> | err:eof | err:invalid | panic
+//	tmnamecff.indexat bytes=<hex> pos=<int32> -> the same through readIndexAt, plus err:other (pos < 4)
 package main
 
 import (
 	"errors"
 	"fmt"
+	"io"
 	"sort"
 	"strings"
 
@@ -85,6 +87,28 @@ func totalNamecffIndexRaw(b []byte, pos int) (string, int) {
 		return fmt.Sprintf("ok:%d;%d;", e, len(items)) + strings.Join(parts, ",")
 	}))
 	return s, end
+}
+
+// totalNamecffIndexAt runs the real readIndexAt (hook cff.VerifReadIndexAt).
+func totalNamecffIndexAt(b []byte, pos int) string {
+	return totalCanonPanic(guard(func() string {
+		items, e, err := cff.VerifReadIndexAt(b, int32(pos))
+		if err != nil {
+			var e2 *parser.InvalidFontError
+			switch {
+			case errors.As(err, &e2):
+				return "err:invalid"
+			case errors.Is(err, io.ErrUnexpectedEOF), errors.Is(err, io.EOF):
+				return "err:eof"
+			}
+			return "err:other"
+		}
+		parts := make([]string, len(items))
+		for i, it := range items {
+			parts[i] = totalNamecffShowItem(it)
+		}
+		return fmt.Sprintf("ok:%d;%d;", e, len(items)) + strings.Join(parts, ",")
+	}))
 }
 
 // ---------------------------------------------------------------- generators
@@ -320,6 +344,8 @@ func init() {
 		return s
 	}
 
+	ops["tmnamecff.indexat"] = func(f Fields) string { return totalNamecffIndexAt(f.Hex("bytes"), f.Int("pos")) }
+
 	totalModelGens["namecff"] = func(c *Ctx, r *Rng, seeds []totalSeed) {
 		totalNamecffMs = totalNamecffLangs(name.VerifMsBCP())
 		totalNamecffApple = totalNamecffLangs(name.VerifAppleBCP())
@@ -492,6 +518,89 @@ func init() {
 					b[0], b[1], b[2] = 0, byte(r.Intn(4)), byte(r.Range(1, 4))
 				}
 				indexCase("random", b, r.Intn(3))
+			}
+		}
+
+		// ---- readIndexAt: signed int32 positions
+		atCase := func(how string, b []byte, pos int) {
+			if len(b) > 20000 {
+				return
+			}
+			out := c.Case(Verdict, "tmnamecff.indexat", fmt.Sprintf("bytes=%s pos=%d", hx(b), pos), len(b) >= 3)
+			c.Stat("tmnamecff:indexat", totalNamecffCls(out))
+			c.Stat("tmnamecff:indexat-how", how+" -> "+totalNamecffCls(out))
+		}
+		// an INDEX behind a prefix of at least 4 bytes, so that its own position is admissible
+		atGen := func() ([]byte, int) {
+			b, pos, _ := totalNamecffGenIndex(r)
+			if pos < 4 {
+				b = append(r.Bytes(4-pos), b...)
+				pos = 4
+			}
+			return b, pos
+		}
+		posFor := func(b []byte, good int) (int, string) {
+			switch r.Intn(16) {
+			case 0:
+				return -1 - r.Intn(5), "negative"
+			case 1:
+				return Pick(r, []int{-2147483648, 2147483647, -2147483647, 2147483646, 0x7fff0000}), "int32-extreme"
+			case 2:
+				return r.Intn(4), "0..3"
+			case 3:
+				return 4, "4"
+			case 4:
+				return len(b) - 1, "len-1"
+			case 5:
+				return len(b), "len"
+			case 6:
+				return len(b) + r.Range(1, 5), "len+k"
+			case 7:
+				return len(b) - 2, "len-2"
+			case 8:
+				return good + Pick(r, []int{-1, 1, 2}), "good±"
+			}
+			return good, "good"
+		}
+		for _, fx := range []struct {
+			b   []byte
+			pos int
+		}{
+			{[]byte{9, 9, 9, 9, 0, 0}, 4}, {[]byte{9, 9, 9, 9, 0, 0}, 3}, {[]byte{9, 9, 9, 0, 0}, 3}, {[]byte{0, 0}, 0},
+			{[]byte{9, 9, 9, 9, 0, 1, 1, 1, 2, 7}, 4}, {[]byte{9, 9, 9, 9, 0, 1, 1, 1, 2, 7}, -1}, {[]byte{9, 9, 9, 9, 0, 1, 1, 1, 2, 7}, 5},
+			{[]byte{9, 9, 9, 9, 0, 1, 1, 1, 2, 7}, 10}, {[]byte{9, 9, 9, 9, 0, 1, 1, 1, 2, 7}, 11}, {[]byte{9, 9, 9, 9, 0, 1, 1, 1, 2, 7}, 9},
+			{[]byte{9, 9, 9, 9, 0, 1, 1, 1, 2, 7}, 2147483647}, {[]byte{9, 9, 9, 9, 0, 1, 1, 1, 2, 7}, -2147483648}, {[]byte{}, 4}, {[]byte{}, 0},
+		} {
+			atCase("fixed", fx.b, fx.pos)
+		}
+		for _, s := range idxSeeds { // hdrSize of the cff seeds and the INDEXes that follow
+			atCase("seed", s[0].([]byte), s[1].(int))
+		}
+		for i := 0; i < c.N/6; i++ {
+			switch {
+			case i%10 < 6:
+				b, good := atGen()
+				pos, how := posFor(b, good)
+				atCase("gen:"+how, b, pos)
+			case i%10 < 9:
+				var b []byte
+				var good int
+				if len(idxSeeds) > 0 && r.Chance(1, 3) {
+					s := Pick(r, idxSeeds)
+					b, good = s[0].([]byte), s[1].(int)
+					if len(b) > 3000 {
+						b, good = atGen()
+					}
+				} else {
+					b, good = atGen()
+				}
+				b, _ = totalMutate(r, b)
+				pos, how := posFor(b, good)
+				atCase("mut:"+how, b, pos)
+			default:
+				b := r.Bytes(r.Intn(24))
+				pos, how := posFor(b, 4)
+				atCase("random:"+how, b, pos)
 			}
 		}
 	}
